@@ -211,7 +211,7 @@ def run(ctx):
                 'alsoProvides, noLongerProvides, queries} on an interface DAG <=3; after every step implementedBy/providedBy and '
                 'I.implementedBy/I.providedBy of every class and instance checked against the two-sided ghost-history bounds; '
                 'distinct = histories')
-    ctx.bounds = 'random history<=9; exhaustive sequences<=3/4 over 15 calls'
+    ctx.bounds = 'random history<=9; exhaustive sequences<=3/4 over 15 instance-level calls; exhaustive sequences<=4/5 over 9 class-level calls on a base class and its subclass'
     # exhaustive: every sequence of <=3 (quick) / 4 (thorough) declaration calls on one instance of a class K0 and K0
     # itself, over the chain I0 <- I1 <- I2 (one argument each)
     import itertools
@@ -222,6 +222,20 @@ def run(ctx):
             if ctx.out_of_time() or ctx.too_many():
                 return
             spec = (chain, (('inst', 0, (), 0),) + seq)
+            bad, n = play(spec)
+            ctx.evaluations += n
+            ctx.distinct.add(spec)
+            for sig, what, known in bad[:1]:
+                ctx.violation(known or sig, what, 'from falsify.C01 import replay\nreplay(%r)\n' % (spec,), known)
+    # exhaustive: every sequence of <=4 (quick) / 5 (thorough) class-level declaration calls on a base class K0 and its
+    # subclass K1 (re-declarations of an interface a class already declares, a base that starts or stops implementing it)
+    alphabet2 = [('ci', 1, (0,), 0), ('cif', 1, (0,), 0), ('ci', 0, (0,), 0), ('cio', 0, (2,), 0), ('cif', 1, (1,), 0),
+                 ('ci', 1, (1,), 0), ('cio', 0, (0,), 0), ('cif', 0, (0,), 0), ('ci', 0, (1,), 0)]
+    for ln in range(1, (4 if ctx.tier == 'quick' else 5) + 1):
+        for seq in itertools.product(alphabet2, repeat=ln):
+            if ctx.out_of_time() or ctx.too_many():
+                return
+            spec = (chain, (('sub', 0, (0,), 0), ('inst', 1, (), 0)) + seq)
             bad, n = play(spec)
             ctx.evaluations += n
             ctx.distinct.add(spec)
